@@ -23,7 +23,7 @@ def sel_proof(pred, named=None):
 UNIT = Unit(
     name="mint", uses="group_core_axioms",
     prelude=["core.rs", "raw.rs", "iter.rs", "crypto.rs", "state_abs.rs", "num.rs", "melswap.rs"],
-    lemmas=["sums.rs", "iterlem.rs", "coinsview.rs", "tips.rs", "apply.rs", "stateinv.rs", "microergs.rs", "mint.rs"],
+    lemmas=["sums.rs", "iterlem.rs", "coinsview.rs", "tips.rs", "apply.rs", "stateinv.rs", "microergs.rs", "chaininv.rs", "chainlem.rs", "mint.rs"],
     items=[
         TypeItem(S, "struct", "UnsealedState"),
         Raw("use num::{BigInt, BigRational, rational::Ratio};"),
@@ -171,6 +171,7 @@ UNIT = Unit(
                    C("consts", "total_liqs as int == minted && total_mtsqrt as int == div && (n0 > 0 ==> div >= 1) && legacy == deposit_legacy(st0.network, st0.height)", "C15", "C01"),
                    C("settled", "!legacy ==> deps_settled(c0, state.coins@.coins, deps0, __i as int, *pool, minted, div, st0.height)", "C15", "C01"),
                    C("idsi", "forall|id: CoinID| #[trigger] state.coins@.coins.contains_key(id) ==> c0.contains_key(id) || exists|q: int| 0 <= q < __i && id == cid(#[trigger] deps0[q], 0)", "C15"),
+                   C("youngi", "young(c0, state.coins@.coins, st0.height)", "C09"),
                    C("inv", "state.coins.wf() && (spec_tip906(st0) ==> counts_ok(state.coins@)) && origin_ok(state.coins@.coins) && (!spec_tip906(st0) ==> state.coins@.counts == st0.coins@.counts)", "C20"),
                    C("frame", "pool_phase_frame(st0, *state) && state.fee_pool == st0.fee_pool && state.pools@ == pools1 && state.height == st0.height && state.network == st0.network", "C15"),
                ])]),
@@ -244,6 +245,7 @@ UNIT = Unit(
                        assert(st.pools@.contains_key(k) ==> pb[k] == s0.pools@[k]); }""",
                body_exit="""proof { let minted = choose|minted: int| #[trigger] deposits_result(pb, cb, pool_reqs(reqs, k), k, s0.height, legacy, st.pools@, st.coins@.coins, minted);
                        lemma_deps_done_step(s0.pools@, c0, s0.height, legacy, reqs, done_set(pools@, i), mint, pb, cb, k, st.pools@, st.coins@.coins, minted);
+                       lemma_young_trans(c0, cb, st.coins@.coins, s0.height);
                        lemma_filter_mem(reqs, for_pool(k));
                        assert forall|id: CoinID| #[trigger] st.coins@.coins.contains_key(id) implies c0.contains_key(id) by { if !cb.contains_key(id) {
                            let rk = pool_reqs(reqs, k); let q = choose|q: int| 0 <= q < rk.len() && id == cid(#[trigger] rk[q], 0); assert(rk.contains(rk[q])); let j = choose|j: int| 0 <= j < reqs.len() && reqs[j] == rk[q]; } }
@@ -261,6 +263,7 @@ UNIT = Unit(
                    C("inv", "st.coins.wf() && (spec_tip906(s0) ==> counts_ok(st.coins@)) && origin_ok(st.coins@.coins) && (!spec_tip906(s0) ==> st.coins@.counts == s0.coins@.counts)", "C20"),
                    C("done", "deps_done(s0.pools@, c0, s0.height, legacy, reqs, done_set(pools@, it.index@ as int), mint, st.pools@, st.coins@.coins)", "C15", "C01", "C03"),
                    C("ids", "ids_sub(c0, st.coins@.coins)", "C16"),
+                   C("youngd", "young(c0, st.coins@.coins, s0.height)", "C09"),
                ])]),
         Fn(M, "process_withdrawals", home="C15", implicit_props=("C09", "C15", "C16", "C01"), **mm_process_withdrawals(),
            rewrites=[("MUTPARAM", "state", "st"), ("R3", 0)],
